@@ -2,6 +2,7 @@ package main
 
 import (
 	"bytes"
+	"sync/atomic"
 	"context"
 	"encoding/json"
 	"fmt"
@@ -59,7 +60,17 @@ type c09World struct {
 	bws     *zapcore.BufferedWriteSyncer
 	bwsLog  *zap.Logger
 	slogH   slog.Handler
+	slogH3  slog.Handler // a handler with three pending groups (its groups slice has spare capacity if built by append)
+	hookLog *zap.Logger  // terminal entries run a custom hook that inspects the entry it is handed
 	httpH   http.Handler
+}
+
+type c09Hook struct{ seen *int64 }
+
+func (h c09Hook) OnWrite(ce *zapcore.CheckedEntry, fs []zapcore.Field) {
+	// reads of the entry after every core has written it
+	n := int64(len(ce.Message)) + int64(ce.Level) + int64(len(ce.LoggerName)) + int64(len(fs))
+	atomic.AddInt64(h.seen, n)
 }
 
 type c09Discard struct{ n int }
@@ -91,6 +102,9 @@ func c09NewWorld() *c09World {
 	w.bws = &zapcore.BufferedWriteSyncer{WS: zapcore.AddSync(&c09Discard{}), Size: 512, FlushInterval: 200 * time.Microsecond}
 	w.bwsLog = zap.New(zapcore.NewCore(enc(), w.bws, zapcore.DebugLevel))
 	w.slogH = zapslog.NewHandler(base, zapslog.WithCaller(true))
+	w.slogH3 = zapslog.NewHandler(base).WithGroup("g1").WithGroup("g2").WithGroup("g3")
+	var seen int64
+	w.hookLog = zap.New(base, zap.WithFatalHook(c09Hook{&seen}), zap.WithPanicHook(c09Hook{&seen}))
 	w.httpH = w.atom
 	return w
 }
@@ -173,6 +187,8 @@ var c09Concrete = map[string][]func(w *c09World, r *rand.Rand){
 		func(w *c09World, r *rand.Rand) { w.inc.Warn("level-increased") },
 		func(w *c09World, r *rand.Rand) { w.shared.Sync() },
 		func(w *c09World, r *rand.Rand) { slog.New(w.slogH).Info("via slog", "k", 1) },
+		func(w *c09World, r *rand.Rand) { w.hookLog.Fatal("terminal entry with a custom hook", zap.Int("i", 1)) },
+		func(w *c09World, r *rand.Rand) { w.hookLog.Panic("terminal entry with a custom hook") },
 		func(w *c09World, r *rand.Rand) {
 			rec := slog.NewRecord(time.Now(), slog.LevelWarn, "record", 0)
 			rec.AddAttrs(slog.Group("g", slog.Int("a", 1)))
@@ -187,6 +203,10 @@ var c09Concrete = map[string][]func(w *c09World, r *rand.Rand){
 		},
 		func(w *c09World, r *rand.Rand) { w.shared.WithLazy(zap.Int("l", 1)).Info("lazy child") },
 		func(w *c09World, r *rand.Rand) { w.shared.Sugar().With("k", 1).Desugar().Info("round trip") },
+		func(w *c09World, r *rand.Rand) {
+			h := w.slogH3.WithGroup(fmt.Sprintf("x%d", r.Intn(1000)))
+			slog.New(h).Info("child of a handler with pending groups", "k", 1)
+		},
 		func(w *c09World, r *rand.Rand) {
 			h := w.slogH.WithGroup("g").WithAttrs([]slog.Attr{slog.Int("a", 1)})
 			h.Enabled(context.Background(), slog.LevelInfo)
